@@ -71,7 +71,8 @@ pub fn store_position(storage: &mut dyn Storage, position: &Position) -> StdResu
     // hash the vAMM and trader together to get a unique position key
     let mut hasher = Sha3_256::new();
 
-    // write input message
+    // write input message, the length keeps two different pairs from concatenating to the same bytes
+    hasher.update((position.vamm.as_bytes().len() as u64).to_be_bytes());
     hasher.update(position.vamm.as_bytes());
     hasher.update(position.trader.as_bytes());
 
@@ -85,7 +86,8 @@ pub fn remove_position(storage: &mut dyn Storage, position: &Position) {
     // hash the vAMM and trader together to get a unique position key
     let mut hasher = Sha3_256::new();
 
-    // write input message
+    // write input message, the length keeps two different pairs from concatenating to the same bytes
+    hasher.update((position.vamm.as_bytes().len() as u64).to_be_bytes());
     hasher.update(position.vamm.as_bytes());
     hasher.update(position.trader.as_bytes());
 
@@ -100,7 +102,8 @@ pub fn read_position(storage: &dyn Storage, vamm: &Addr, trader: &Addr) -> StdRe
     // hash the vAMM and trader together to get a unique position key
     let mut hasher = Sha3_256::new();
 
-    // write input message
+    // write input message, the length keeps two different pairs from concatenating to the same bytes
+    hasher.update((vamm.as_bytes().len() as u64).to_be_bytes());
     hasher.update(vamm.as_bytes());
     hasher.update(trader.as_bytes());
 
